@@ -30,6 +30,13 @@ pub fn check(_ctx: &Ctx, st: &mut Stats, c: &Case) {
     }
     st.evaluations += 2;
     st.tick();
+    if (lat.to_bits() ^ lon.to_bits()) % 16 == 1 {
+        // typical application flow: prayer times for a place, then its Qibla, on the same thread
+        st.count("prayer_times_call_before_qibla(same coordinates)");
+        let mut pp = Params::new(Method::Mwl);
+        pp.extreme_latitude_method = ExtremeLatitudeMethod::None; // (the default policy searches a year of days at polar sites)
+        let _ = guarded(|| prayer_times_dt(&pp, loc(lat, lon, c.elev.0, (lon / 15.0).round().clamp(-12.0, 12.0)), ymd(2024, 3, 1), None));
+    }
     let coords = |e: f64| Coordinates::new(Latitude::try_from(lat).unwrap(), Longitude::try_from(lon).unwrap(), Elevation::try_from(e).unwrap());
     let r = guarded(|| {
         let q = Qibla::new(coords(c.elev.0));
